@@ -44,11 +44,11 @@ DEV_REFUTED_BY = {
     "EqSkipsTinyResponse": ({(4, 1, 4)}, {"OneTapExact"}),       # run with the channel gains 1e-7 .. 1e7
 }
 PTYPES = ["int", "int8", "uint8", "int16", "uint16", "int32", "uint32", "int64", "uint64"]
-# The UNSIGNED scalar types break the current code (index map and prefix use unary minus / negative numbers on the
-# parameters; proposed repair: notes/fixes/C02-integer-parameters.patch).  Until that is committed they run in a separate
-# partition whose mismatches are COUNTED in the evidence (`pending_unsigned_parameter_cases`), not judged.
-JUDGED_PTYPES = [t for t in PTYPES if not t.startswith("uint")]
-PENDING_PTYPES = [t for t in PTYPES if t.startswith("uint")]
+# The UNSIGNED scalar types broke the code as found (index map and prefix use unary minus / negative numbers on the
+# parameters); repaired in /repo (3fd82b5, notes/fixes/C02-integer-parameters.patch), so every type is judged.  The
+# "pending" partition (counted, not judged) is empty and kept only as a mechanism.
+JUDGED_PTYPES = PTYPES
+PENDING_PTYPES = []
 GAINS = list(range(-7, 8))
 HIST_DEVS = {"MemoNumbersByUsedOnly", "RejectedSetHalfUpdates", "PadKeepsOldData"}
 # the quick history alphabet: the same used count under the all-carriers branch and under the centred branch at two fft
@@ -728,7 +728,10 @@ def plan(tier, seed):
            + configs_of([60], cps=lambda N: [0, 7, 60], us=lambda N: [2, 52, 60]))
     # sizes at which fft^2 leaves the 16 / 32-bit range, parameters in every (judged) type wide enough for the sizes
     big = [(182, 10, 100), (256, 64, 200), (46342, 2, 4), (65536, 0, 2)]
-    scalecases = [c + (t,) for c in big for t in JUDGED_PTYPES if t != "int8" and (c[0] < 32768 or t not in ("int16",))]
+    pmax = {"int": 2 ** 62, "int8": 127, "uint8": 255, "int16": 32767, "uint16": 65535, "int32": 2 ** 31 - 1, "uint32": 2 ** 32 - 1,
+            "int64": 2 ** 63 - 1, "uint64": 2 ** 64 - 1}
+    # (the specification's Fits with L = 1: every size the API exposes is representable in the type)
+    scalecases = [c + (t,) for c in big for t in JUDGED_PTYPES if max(c[0] + c[1], c[2]) <= pmax[t]]
     jobs.append({"label": "stars", "w": 1e12, "model": dict(mapffts=list(range(2, 65)), paramffts=[2, 3, 4, 6, 8], seed=seed,
                                                              scalecases=scalecases)})
     # parameter scalar types: full chains for sizes at the 8-bit thresholds of fft^2 (12, 16), small and non-pow2 sizes
